@@ -190,10 +190,11 @@ def main(a):
             errors.append("monitor %s: %s" % (pl["monitor"], mon["error"]))
         for v in mon.get("violations", []):
             f = next((f for f in kf if f.get("status") == "open" and f.get("property") == prop and f.get("monitor_key") and f["monitor_key"] == v.get("key")), None)
+            rec = dict(v, id="monitor::" + v.get("key", "?"), monitor=True, witness={"monitor": v.get("monitor"), "fn": v.get("fn"), "input": v.get("input")})
             if f:
-                known.append((f, {"id": "monitor::" + v.get("key", "?"), "monitor": True, **v}))
+                known.append((f, rec))
             else:
-                violations.append({"id": "monitor::" + v.get("key", "?"), "monitor": True, **v})
+                violations.append(rec)
     # ---- report -----------------------------------------------------------------------------------
     from checker.replay import write_replay
 
